@@ -22,7 +22,7 @@ def check(tier, replay):
                mc=[("MC_ExtElem.tla", "MC_ExtElem_q.cfg", "quick"), ("MC_ExtElem.tla", "MC_ExtElem.cfg", "thorough")],
                gens=[("external elements: one behaviour per transition (2 elements, 2 names, 3 directories, relative and absolute names, creation and search directories, files moved / removed / planted)", "Gen_ExtElem.tla", "Gen_ExtElem_cover.cfg", "cover", {"sample": 15000}),
                      ("external elements: simulate depth 14, offsets 0/2/5, lengths 1/3/4", "Gen_ExtElem.tla", "Gen_ExtElem_sim.cfg", "sim", {"num_quick": 400, "num": 6000, "depth": 15, "sample": 12000})],
-               mutators={"Create", "Promote", "Overwrite", "PutPlain", "Move", "Plant", "Remove", "SetCreateDir", "SetSearch"},
+               mutators={"Create", "Promote", "Overwrite", "RWOverwrite", "PutPlain", "Move", "Plant", "Remove", "SetCreateDir", "SetSearch"},
                need_actions=["Create", "Promote", "Overwrite", "Read", "Move", "Plant", "Remove", "SetCreateDir", "SetSearch", "Reopen"],
                rep=rep, finish=False, part="ext", tv_quick=6000,
                assumptions=["external elements (specs/ExtElem.tla): every read / overwrite is one start..endaccess, so no external file stays open across a change of HXsetdir; the environment variables HDFEXTDIR / HDFEXTCREATEDIR are unset; overwrites stay inside the element"])
